@@ -177,6 +177,17 @@ impl ObjStreamP<'_> {
                 let err = ErrorKind::GuardError(msg);
                 return Err(locate_value(err, *ofs, buf.get_cursor()))
             }
+            // The object is the one located at its declared offset: whatever lies
+            // between the end of the previous object and this offset belongs to
+            // no object and must not be parsed in its place.
+            if buf.set_cursor(*ofs).is_err() {
+                let msg = format!(
+                    "offset {} for object #{} with id {} is beyond the stream data",
+                    ofs, i, onum
+                );
+                let err = ErrorKind::GuardError(msg);
+                return Err(locate_value(err, *ofs, *ofs))
+            }
             ws.parse(buf)?;
 
             let start = buf.get_cursor();
